@@ -113,9 +113,13 @@ uint32_t cop_serialize_value(const NanoValue *val, uint8_t *buf, uint32_t buf_si
     return pos;
 }
 
-uint32_t cop_deserialize_value(const uint8_t *buf, uint32_t buf_size,
-                               NanoValue *out, VmHeap *heap) {
+/* Arrays nest by recursion; the nesting depth comes from the peer, so it is bounded. */
+#define COP_MAX_VALUE_DEPTH 64
+
+static uint32_t deserialize_value(const uint8_t *buf, uint32_t buf_size,
+                                  NanoValue *out, VmHeap *heap, unsigned depth) {
     if (buf_size < 1) return 0;
+    if (depth > COP_MAX_VALUE_DEPTH) return 0;
     uint8_t tag = buf[0];
     uint32_t pos = 1;
 
@@ -177,8 +181,8 @@ uint32_t cop_deserialize_value(const uint8_t *buf, uint32_t buf_size,
         VmArray *arr = vm_array_new(heap, etype, count > 0 ? count : 4);
         for (uint32_t i = 0; i < count; i++) {
             NanoValue elem;
-            uint32_t n = cop_deserialize_value(buf + pos, buf_size - pos,
-                                                &elem, heap);
+            uint32_t n = deserialize_value(buf + pos, buf_size - pos,
+                                           &elem, heap, depth + 1);
             if (n == 0) { *out = val_void(); return 0; }
             pos += n;
             vm_array_push(arr, elem);
@@ -195,6 +199,11 @@ uint32_t cop_deserialize_value(const uint8_t *buf, uint32_t buf_size,
     }
 
     return pos;
+}
+
+uint32_t cop_deserialize_value(const uint8_t *buf, uint32_t buf_size,
+                               NanoValue *out, VmHeap *heap) {
+    return deserialize_value(buf, buf_size, out, heap, 0);
 }
 
 /* ========================================================================
